@@ -1,17 +1,468 @@
-import GIV.Model.ScriptParse
+/-
+  C02 — testscript word splitting, quoting and variable expansion are exact.
+
+  All theorems are about the executable model GIV.Model.ScriptParse (`parseLine` = (*TestScript).parse,
+  `expand`, `TS.setenv`/`cmdEnv`, `TS.childEnv`), for every environment, every line and every
+  assignment history.  The tokenizer constants (blank bytes, comment byte, quote byte), the
+  doubled-quote rule, which chunks are expanded, the "@R" suffix and the bytes QuoteMeta escapes are
+  the regenerated definitions of GIV.Gen.Script: the proofs go through `isBlank_iff`, `isComment_iff`,
+  `quoteChar_eq`, `chunkText_*`, `expandMapping_*`, so a change of any of them in the source breaks
+  a named theorem here.
+
+  Byte values used in statements: 32 ' ', 9 tab, 13 CR, 10 newline, 35 '#', 36 '$', 39 quote,
+  61 '=', 64 '@', 82 'R', 123 '{', 125 '}'.
+-/
+import GIV.Lemmas.ScriptTok
+import GIV.Lemmas.ScriptExpand
+import GIV.Lemmas.ScriptEnv
+import GIV.Lemmas.ScriptRegex
 namespace GIV.C02
 open GIV GIV.Script
 
-/-- The latest assignment wins; other names are unaffected. -/
+/-! ### the constants are the property's -/
+
+/-- Arguments are separated by space, tab (and CR); '#' starts a comment; the quote is the single quote. -/
+theorem constants :
+    (∀ c, isBlank c = true ↔ (c = 32 ∨ c = 9 ∨ c = 13)) ∧ (∀ c, isComment c = true ↔ c = 35) ∧ quoteChar = 39 :=
+  ⟨isBlank_iff, isComment_iff, quoteChar_eq⟩
+
+example : isBlank 32 = true ∧ isBlank 9 = true ∧ isComment 35 = true ∧ isBlank 97 = false := by decide
+
+/-! ### quoting -/
+
+/-- The words of `ws`, single-quoted (quotes doubled), joined by one space. -/
+def quotedLine (ws : List Bytes) : Bytes := [32].intercalate (ws.map sq)
+
+theorem quotedLine_cons₂ (w w2 : Bytes) (ws : List Bytes) :
+    quotedLine (w :: w2 :: ws) = sq w ++ 32 :: quotedLine (w2 :: ws) := by
+  simp [quotedLine, List.intercalate]
+
+theorem quote_law_aux (env : Env) (ws : List Bytes) :
+    ∀ args : List Bytes, tok env (quotedLine ws) args [] none false = .ok (args ++ ws) := by
+  induction ws with
+  | nil => intro args; simp [quotedLine, List.intercalate, tok]
+  | cons w ws ih =>
+    intro args
+    cases ws with
+    | nil =>
+      have h := tok_sq env w [] args [] none (by simp)
+      have hq : quotedLine [w] = sq w ++ [] := by simp [quotedLine, List.intercalate]
+      rw [hq, h, tok_nil_unq]
+      simp [stText, expand_nil]
+    | cons w2 ws =>
+      rw [quotedLine_cons₂, tok_sq env w _ args [] none (by simp [quoteChar_eq]),
+        tok_blank env 32 _ args _ (some []) (by decide)]
+      simp only []
+      rw [ih]
+      simp [stText, expand_nil]
+
+/-- **Quoting law.**  Any words (any bytes: blanks, tabs, CR, '#', '$', quotes — a script line cannot
+contain a newline, which is the only reason for the hypothesis), each written in single quotes with
+quotes doubled and separated by a space, come back as exactly these words: one argument each,
+nothing expanded, nothing split, nothing dropped (an empty word is an empty argument). -/
+theorem quote_law (env : Env) (ws : List Bytes) (_hnl : ∀ w ∈ ws, NL ∉ w) (_hne : ws ≠ []) :
+    parseLine env (quotedLine ws) = .ok ws := by
+  simpa [parseLine] using quote_law_aux env ws []
+
+/-- The same without side conditions (the tokenizer itself does not care about newlines). -/
+theorem quote_law_all (env : Env) (ws : List Bytes) : parseLine env (quotedLine ws) = .ok ws := by
+  simpa [parseLine] using quote_law_aux env ws []
+
+-- `'a b' '#$X' 'it''s' ''`  with X bound:  four arguments, verbatim
+example : parseLine [([88], [118])] (quotedLine [[97, 32, 98], [35, 36, 88], [105, 116, 39, 115], []])
+    = .ok [[97, 32, 98], [35, 36, 88], [105, 116, 39, 115], []] := by
+  exact quote_law _ _ (by decide) (by decide)
+
+example : quotedLine [[105, 116, 39, 115], []] = [39, 105, 116, 39, 39, 115, 39, 32, 39, 39] := by decide
+
+/-- At script level: the run loop cuts the script at the first newline, so a quoted line followed by
+a newline is exactly the line that gets parsed. -/
+theorem quote_law_in_script (env : Env) (ws : List Bytes) (hnl : ∀ w ∈ ws, NL ∉ w) (rest : Bytes) :
+    (nextLine (quotedLine ws ++ NL :: rest)).1 = quotedLine ws ∧
+    (nextLine (quotedLine ws ++ NL :: rest)).2 = rest ∧
+    parseLine env (nextLine (quotedLine ws ++ NL :: rest)).1 = .ok ws := by
+  have hline : ∀ (l : Bytes), NL ∉ l → nextLine (l ++ NL :: rest) = (l, rest) := by
+    intro l hl
+    induction l with
+    | nil => simp [nextLine]
+    | cons c l ih =>
+      have hc : c ≠ NL := fun h => hl (by simp [h])
+      have := ih (fun h => hl (by simp [h]))
+      simp [nextLine, hc, this]
+  have hsq : ∀ w : Bytes, NL ∉ w → NL ∉ sq w := by
+    intro w hw h
+    simp only [sq, List.mem_cons, List.mem_append, List.mem_nil_iff, or_false] at h
+    have hd : NL ∉ dq w := by
+      intro hm
+      simp only [dq, List.mem_flatMap] at hm
+      obtain ⟨c, hc, hm⟩ := hm
+      have : NL = c := by
+        by_cases hq : c = quoteChar
+        · rw [if_pos hq] at hm; simpa using hm
+        · rw [if_neg hq] at hm; simpa using hm
+      exact hw (this ▸ hc)
+    rcases h with h | h | h
+    · revert h; decide
+    · exact hd h
+    · revert h; decide
+  have hq : NL ∉ quotedLine ws := by
+    induction ws with
+    | nil => simp [quotedLine, List.intercalate]
+    | cons w ws ih =>
+      cases ws with
+      | nil =>
+        have : quotedLine [w] = sq w := by simp [quotedLine, List.intercalate]
+        rw [this]; exact hsq w (hnl w (by simp))
+      | cons w2 ws =>
+        rw [quotedLine_cons₂]
+        intro h
+        rcases List.mem_append.1 h with h | h
+        · exact hsq w (hnl w (by simp)) h
+        · rcases List.mem_cons.1 h with h | h
+          · revert h; decide
+          · exact ih (fun x hx => hnl x (by simp [hx])) h
+  rw [hline _ hq]
+  exact ⟨rfl, rfl, quote_law_all env ws⟩
+
+example : (nextLine ([39, 97, 39] ++ NL :: [98])).1 = [39, 97, 39] := by decide
+
+/-! ### splitting -/
+
+/-- A word of unquoted text with nothing special in it: no blank, '#', quote or '$'. -/
+def PlainWord (w : Bytes) : Prop := w ≠ [] ∧ ∀ c ∈ w, Ordinary c ∧ c ≠ DOLLAR
+
+instance (w : Bytes) : Decidable (PlainWord w) := by unfold PlainWord; infer_instance
+
+/-- **Splitting, with expansion.**  A line made of blank runs and unquoted words (free of blanks, '#'
+and quotes) — the runs between words non-empty, a run of blanks or nothing at the end — parses to
+the expansion of exactly these words. -/
+theorem split_expand_law (env : Env) (pairs : List (Bytes × Bytes)) (trail : Bytes)
+    (hp : ∀ p ∈ pairs, AllBlank p.1 ∧ p.2 ≠ [] ∧ AllOrdinary p.2)
+    (hsep : ∀ p ∈ pairs.tail, p.1 ≠ []) (ht : AllBlank trail) :
+    parseLine env (pairs.flatMap (fun p => p.1 ++ p.2) ++ trail) = .ok (pairs.map fun p => expand env p.2) := by
+  have h := tok_line env trail ⟨trail, ht, Or.inl rfl⟩ (pairs.map fun p => (p.1, [Seg.raw p.2]))
+    (by
+      intro q hq
+      obtain ⟨p, hpm, rfl⟩ := List.mem_map.1 hq
+      obtain ⟨h1, h2, h3⟩ := hp p hpm
+      exact ⟨h1, by simp, ⟨h2, h3⟩⟩)
+    (by
+      intro q hq
+      rw [← List.map_tail] at hq
+      obtain ⟨p, hpm, rfl⟩ := List.mem_map.1 hq
+      exact hsep p hpm)
+    []
+  have hr : renderToks (pairs.map fun p => (p.1, [Seg.raw p.2])) = pairs.flatMap (fun p => p.1 ++ p.2) := by
+    simp [renderToks, renderSegs, Seg.render, List.flatMap_map]
+  rw [hr] at h
+  simpa [parseLine, valueSegs, Seg.value, List.map_map, Function.comp_def] using h
+
+/-- **Splitting.**  Unquoted text without '$' is split exactly at its maximal runs of blanks:
+leading, trailing and repeated blanks produce no (empty) arguments and the words are unchanged. -/
+theorem split_law (env : Env) (pairs : List (Bytes × Bytes)) (trail : Bytes)
+    (hp : ∀ p ∈ pairs, AllBlank p.1 ∧ PlainWord p.2)
+    (hsep : ∀ p ∈ pairs.tail, p.1 ≠ []) (ht : AllBlank trail) :
+    parseLine env (pairs.flatMap (fun p => p.1 ++ p.2) ++ trail) = .ok (pairs.map fun p => p.2) := by
+  rw [split_expand_law env pairs trail
+    (fun p hpm => ⟨(hp p hpm).1, (hp p hpm).2.1, fun c hc => ((hp p hpm).2.2 c hc).1⟩) hsep ht]
+  congr 1
+  apply List.map_congr_left
+  intro p hpm
+  exact expand_plain env p.2 (fun c hc => ((hp p hpm).2.2 c hc).2)
+
+-- "\t ab  c\r" : two words
+example : parseLine [] ([([9, 32], [97, 98]), ([32, 32], [99])].flatMap (fun p => p.1 ++ p.2) ++ [13])
+    = .ok [[97, 98], [99]] := by
+  apply split_law <;> decide
+
+/-- A line of blanks only has no arguments. -/
+theorem blank_line (env : Env) (b : Bytes) (hb : AllBlank b) : parseLine env b = .ok [] :=
+  tok_tail env b ⟨b, hb, Or.inl rfl⟩ []
+
+/-! ### comments and unterminated quotes -/
+
+/-- **An unquoted '#' ends the line.**  If the text before it leaves the scan outside quotes
+(`unbalanced s false = false`: two-state scan toggling at every quote), everything from the
+'#' on is ignored. -/
+theorem hash_ends (env : Env) (s t : Bytes) (hs : unbalanced s false = false) :
+    parseLine env (s ++ 35 :: t) = parseLine env s :=
+  tok_comment_cut env 35 t (by decide) s.length s (Nat.le_refl _) [] [] none false (by simp) hs
+
+/-- A quoted '#' is literal (instance of the quoting law). -/
+theorem hash_quoted (env : Env) (u v : Bytes) : parseLine env (sq (u ++ 35 :: v)) = .ok [u ++ 35 :: v] := by
+  have := quote_law_all env [u ++ 35 :: v]
+  simpa [quotedLine, List.intercalate] using this
+
+-- `a 'b' # 'x`  =  `a 'b' `   (the unbalanced quote after '#' is not even looked at)
+example : parseLine [] ([97, 32, 39, 98, 39, 32] ++ 35 :: [32, 39, 120]) = .ok [[97], [98]] := by
+  rw [hash_ends _ _ _ (by decide)]; rfl
+
+example : parseLine [] (sq [97, 35, 98]) = .ok [[97, 35, 98]] := hash_quoted [] [97] [98]
+
+/-- **Unterminated quotes.**  The line is rejected (`ts.Fatalf("unterminated quoted argument")`) exactly
+when the two-state scan ends inside quotes; otherwise it parses (and never panics). -/
+theorem unterminated (env : Env) (s : Bytes) :
+    (parseLine env s = .error .unterminated ↔ unbalanced s false = true) ∧
+    (unbalanced s false = false → ∃ args, parseLine env s = .ok args) := by
+  rcases tok_balance env s.length s (Nat.le_refl _) [] [] none false (by simp) with ⟨h1, h2⟩ | ⟨l, h1, h2⟩
+  · exact ⟨⟨fun _ => h2, fun _ => h1⟩, fun h => by rw [h2] at h; exact absurd h (by simp)⟩
+  · refine ⟨⟨fun h => ?_, fun h => by rw [h2] at h; exact absurd h (by simp)⟩, fun _ => ⟨l, h1⟩⟩
+    rw [parseLine, h1] at h
+    exact absurd h (by simp)
+
+theorem unbalanced_parity (s : Bytes) (hs : ∀ c ∈ s, isComment c = false) :
+    ∀ q, unbalanced s q = true ↔ (q = true ↔ s.count quoteChar % 2 = 0) := by
+  induction s with
+  | nil => intro q; cases q <;> simp [unbalanced]
+  | cons c s ih =>
+    intro q
+    have hc : isComment c = false := hs c (by simp)
+    have ih' := ih (fun x hx => hs x (by simp [hx]))
+    by_cases hq : c = quoteChar
+    · subst hq
+      rw [unbalanced, if_pos rfl, ih', List.count_cons_self]
+      cases q <;> simp <;> omega
+    · have hu : unbalanced (c :: s) q = unbalanced s q := by simp [unbalanced, hq, hc]
+      rw [hu, ih', List.count_cons_of_ne hq]
+
+/-- On a line without '#': rejected exactly when the number of quote bytes is odd. -/
+theorem unterminated_parity (env : Env) (s : Bytes) (hs : ∀ c ∈ s, c ≠ 35) :
+    parseLine env s = .error .unterminated ↔ s.count 39 % 2 = 1 := by
+  have hc : ∀ c ∈ s, isComment c = false := by
+    intro c hc
+    have := hs c hc
+    cases h : isComment c
+    · rfl
+    · exact absurd ((isComment_iff c).1 h) this
+  rw [(unterminated env s).1, unbalanced_parity s hc false, quoteChar_eq]
+  simp
+
+example : parseLine [] [97, 32, 39, 98] = .error .unterminated := by
+  rw [unterminated_parity _ _ (by decide)]; decide
+example : ∃ args, parseLine [] [97, 32, 39, 98, 39, 32, 39, 39] = .ok args :=
+  (unterminated _ _).2 (by decide)
+
+/-! ### expansion happens once -/
+
+theorem isAlphaNum_ordinary {c : UInt8} (h : isAlphaNum c = true) : Ordinary c := by
+  refine ⟨?_, ?_, ?_⟩
+  · cases hb : isBlank c
+    · rfl
+    · rcases (isBlank_iff c).1 hb with hc | hc | hc <;> subst hc <;> revert h <;> decide
+  · cases hb : isComment c
+    · rfl
+    · have := (isComment_iff c).1 hb; subst this; revert h; decide
+  · intro hc; subst hc; revert h; decide
+
+theorem ordinary_syntax : Ordinary DOLLAR ∧ Ordinary LBRACE ∧ Ordinary RBRACE ∧ Ordinary 64 ∧ Ordinary 82 := by decide
+
+/-- A single well-formed token alone on the line: one argument, its value. -/
+theorem token_line (env : Env) (segs : List Seg) (hne : segs ≠ []) (hA : Alt segs) :
+    parseLine env (renderSegs segs) = .ok [valueSegs env segs] := by
+  have := tok_token env segs hne hA [] (Or.inl rfl) []
+  simpa [parseLine, tok_nil_unq] using this
+
+/-- **Expansion is done once.**  For a variable name `k` (letters, digits, '_', not starting with a
+digit) whose current value is `v` — any `v`: blanks, quotes, '$', '#', empty — both `$k` and `${k}`
+are exactly one argument equal to `v`: the value is neither split, nor expanded again, nor cut at a
+'#', and an empty value is an empty argument (not a missing one). -/
+theorem expand_once (env : Env) (k v : Bytes) (hk : NameOK k) (hv : lookup env k = v) :
+    parseLine env (36 :: k) = .ok [v] ∧ parseLine env (36 :: 123 :: (k ++ [125])) = .ok [v] := by
+  have hko : AllOrdinary k := fun c hc => isAlphaNum_ordinary (hk.1 c hc)
+  constructor
+  · have h := token_line env [Seg.raw (36 :: k)] (by simp)
+      ⟨by simp, fun c hc => by
+        rcases List.mem_cons.1 hc with h | h
+        · subst h; exact ordinary_syntax.1
+        · exact hko c h⟩
+    have he : expand env (36 :: k) = v := by
+      have := expand_name_in env [] k [] (by simp) (by simp) hk (by simp)
+      simpa [hv, DOLLAR] using this
+    simpa [renderSegs, Seg.render, valueSegs, Seg.value, he] using h
+  · have h := token_line env [Seg.raw (36 :: 123 :: (k ++ [125]))] (by simp)
+      ⟨by simp, fun c hc => by
+        simp only [List.mem_cons, List.mem_append, List.mem_nil_iff, or_false] at hc
+        rcases hc with h | h | h | h
+        · subst h; exact ordinary_syntax.1
+        · subst h; exact ordinary_syntax.2.1
+        · exact hko c h
+        · subst h; exact ordinary_syntax.2.2.1⟩
+    have he : expand env (36 :: 123 :: (k ++ [125])) = v := by
+      have := expand_braced_in env [] k [] (by simp) (by simp) hk
+      simpa [hv, DOLLAR, LBRACE, RBRACE] using this
+    simpa [renderSegs, Seg.render, valueSegs, Seg.value, he] using h
+
+-- K = `a 'b $K #c` : `$K` and `${K}` give that one argument
+example : parseLine [([75], [97, 32, 39, 98, 32, 36, 75, 32, 35, 99])] [36, 75] = .ok [[97, 32, 39, 98, 32, 36, 75, 32, 35, 99]] :=
+  (expand_once _ [75] _ ⟨by decide, 75, [], rfl, by decide⟩ (by decide)).1
+-- empty value: one empty argument
+example : parseLine [([75], [])] [36, 123, 75, 125] = .ok [[]] :=
+  (expand_once _ [75] _ ⟨by decide, 75, [], rfl, by decide⟩ (by decide)).2
+
+/-- **Concatenation** `p$k'w'${k}q`: unquoted text, a variable, a quoted word, the variable again in
+braces, more text — one argument `p ++ v ++ w ++ v ++ q`. -/
+theorem expand_concat (env : Env) (p k w q v : Bytes) (hk : NameOK k) (hv : lookup env k = v)
+    (hp : ∀ c ∈ p, Ordinary c ∧ c ≠ DOLLAR) (hq : ∀ c ∈ q, Ordinary c ∧ c ≠ DOLLAR) :
+    parseLine env (p ++ 36 :: k ++ sq w ++ 36 :: 123 :: (k ++ 125 :: q)) = .ok [p ++ v ++ w ++ v ++ q] := by
+  have hko : AllOrdinary k := fun c hc => isAlphaNum_ordinary (hk.1 c hc)
+  have h1 : (Seg.raw (p ++ 36 :: k)).OK := by
+    refine ⟨by simp, fun c hc => ?_⟩
+    simp only [List.mem_append, List.mem_cons] at hc
+    rcases hc with h | h | h
+    · exact (hp c h).1
+    · subst h; exact ordinary_syntax.1
+    · exact hko c h
+  have h3 : (Seg.raw (36 :: 123 :: (k ++ 125 :: q))).OK := by
+    refine ⟨by simp, fun c hc => ?_⟩
+    simp only [List.mem_append, List.mem_cons] at hc
+    rcases hc with h | h | h | h | h
+    · subst h; exact ordinary_syntax.1
+    · subst h; exact ordinary_syntax.2.1
+    · exact hko c h
+    · subst h; exact ordinary_syntax.2.2.1
+    · exact (hq c h).1
+  have h := token_line env [Seg.raw (p ++ 36 :: k), Seg.quo w, Seg.raw (36 :: 123 :: (k ++ 125 :: q))] (by simp)
+    ⟨h1, by simp [Seg.isRaw], trivial, by simp [Seg.isRaw], h3⟩
+  have e1 : expand env (p ++ 36 :: k) = p ++ v := by
+    have := expand_name_in env p k [] (fun c hc => (hp c hc).2) (by simp) hk (by simp)
+    simpa [hv, DOLLAR] using this
+  have e3 : expand env (36 :: 123 :: (k ++ 125 :: q)) = v ++ q := by
+    have := expand_braced_in env [] k q (by simp) (fun c hc => (hq c hc).2) hk
+    simpa [hv, DOLLAR, LBRACE, RBRACE] using this
+  simpa [renderSegs, Seg.render, valueSegs, Seg.value, e1, e3, List.append_assoc] using h
+
+-- `x$K'y z'${K}w` with K = `a b`
+example : parseLine [([75], [97, 32, 98])] ([120] ++ 36 :: [75] ++ sq [121, 32, 122] ++ 36 :: 123 :: ([75] ++ 125 :: [119]))
+    = .ok [[120] ++ [97, 32, 98] ++ [121, 32, 122] ++ [97, 32, 98] ++ [119]] :=
+  expand_concat _ _ _ _ _ _ ⟨by decide, 75, [], rfl, by decide⟩ (by decide) (by decide) (by decide)
+
+/-! ### assignments -/
+
+/-- **The latest assignment wins**, and other names are unaffected. -/
 theorem latest_wins (env : Env) (k v k' : Bytes) :
     lookup (setenv env k v) k = v ∧ (k' ≠ k → lookup (setenv env k v) k' = lookup env k') := by
   constructor
-  · simp [lookup, setenv, List.foldl_append]
+  · simp [setenv, lookup_append_one]
   · intro h
-    simp [lookup, setenv, List.foldl_append, Ne.symm h]
+    simp [setenv, lookup_append_one, Ne.symm h]
 
 -- K=old J=j, then K=new
 example : lookup (setenv [([75], [111, 108, 100]), ([74], [106])] [75] [110, 101, 119]) [75] = [110, 101, 119] := by
   decide
+
+/-- The `env` command: `env k=v` (one argument, split at its first '=') makes Getenv(k) = v and
+leaves every other name alone — whatever was assigned before. -/
+theorem env_command (ts : TS) (k v k' : Bytes) (hk : 61 ∉ k) :
+    (cmdEnv ts [k ++ 61 :: v]).getenv k = v ∧
+    (k' ≠ k → (cmdEnv ts [k ++ 61 :: v]).getenv k' = ts.getenv k') := by
+  have hs : splitEq (k ++ 61 :: v) = some (k, v) := splitEq_append k v hk
+  have : cmdEnv ts [k ++ 61 :: v] = ts.setenv k v := by
+    simp [cmdEnv, cmdEnvArg, Gen.Script.cmdEnvSplitsAtFirstEq, hs]
+  rw [this]
+  have hm : (ts.setenv k v).envMap = setenv ts.envMap k v := by
+    simp [TS.setenv, Gen.Script.setenvUpdatesMap, setenv]
+  simp only [TS.getenv, getenv, Gen.Script.getenvReadsEnvMap, if_true, hm]
+  exact latest_wins ts.envMap k v k'
+
+example : (cmdEnv (TS.setup [[75, 61, 49]]) [[75, 61, 50, 61, 51]]).getenv [75] = [50, 61, 51] :=
+  (env_command _ [75] [50, 61, 51] [] (by decide)).1
+
+/-- **The list handed to os/exec and the map used for expansion agree**, for every assignment
+history: in every state reachable from the end of setup by Setenv with '='-free names (all that
+`env` can do: `cmdEnv_reach`), `ts.envMap` is `ts.env` read entry by entry (split at the first '=',
+later entries overwrite). -/
+theorem env_list_map_agree (ts : TS) (h : Reach ts) (k : Bytes) :
+    ts.getenv k = lookup (ts.env.filterMap splitEq) k := by
+  simp [TS.getenv, getenv, Gen.Script.getenvReadsEnvMap, h.envMap_eq]
+
+theorem env_command_reach (ts : TS) (h : Reach ts) (args : List Bytes) : Reach (cmdEnv ts args) :=
+  cmdEnv_reach h args
+
+/-- **Executed programs see the same values.**  In every reachable state without NUL bytes in the
+environment (os/exec refuses to start a child otherwise), the strings the child receives —
+`ts.env` plus `PWD=<cd>`, after os/exec's de-duplication — read the way a process reads its
+environment (first '=' splits, first mention of a name wins) give, for every name other than PWD
+(non-empty, without '='), exactly `ts.Getenv`. -/
+theorem child_sees_same (ts : TS) (h : Reach ts) (cd : Bytes) (hn : NoNUL ts.env) (hcd : 0 ∉ cd)
+    (k : Bytes) (hne : k ≠ []) (hk : 61 ∉ k) (hpwd : k ≠ [80, 87, 68]) :
+    ∃ out, ts.childEnv cd = .ok out ∧ childGetenv out k = ts.getenv k := by
+  have hn' : NoNUL (ts.env ++ [Gen.Script.pwdName ++ EQ :: cd]) := by
+    intro kv hkv
+    rcases List.mem_append.1 hkv with hkv | hkv
+    · exact hn kv hkv
+    · have : kv = Gen.Script.pwdName ++ EQ :: cd := by simpa using hkv
+      subst this
+      have : (0 : UInt8) ∉ Gen.Script.pwdName ++ EQ :: cd := by
+        intro hm
+        rcases List.mem_append.1 hm with hm | hm
+        · revert hm; decide
+        · rcases List.mem_cons.1 hm with hm | hm
+          · revert hm; decide
+          · exact hcd hm
+      simpa using this
+  obtain ⟨out, h1, h2⟩ := dedupEnv_lookup _ hn' k hne hk
+  refine ⟨out, by simp [TS.childEnv, Gen.Script.childEnvIsListPlusPWD, h1], ?_⟩
+  rw [h2, env_list_map_agree ts h k, List.filterMap_append]
+  have hs : splitEq (Gen.Script.pwdName ++ EQ :: cd) = some (Gen.Script.pwdName, cd) :=
+    splitEq_append _ _ (by decide)
+  simp only [List.filterMap_cons, hs, List.filterMap_nil]
+  rw [lookup_append_one, if_neg (by simpa [Gen.Script.pwdName] using Ne.symm hpwd)]
+
+-- setup list A=1 B=2 A=3, then `env A=4`: the child sees A=4, B=2
+example : ∃ out, ((TS.setup [[65, 61, 49], [66, 61, 50], [65, 61, 51]]).setenv [65] [52]).childEnv [47, 119] = .ok out ∧
+    childGetenv out [65] = [52] ∧ childGetenv out [66] = [50] := by
+  refine ⟨_, rfl, by decide, by decide⟩
+
+/-! ### `${NAME@R}` -/
+
+/-- **QuoteMeta'd text is a literal pattern for exactly the value**: in the literal fragment of RE2
+syntax (non-meta bytes and backslash-escaped meta bytes), the language of `QuoteMeta(v)` is `{v}`. -/
+theorem atR_literal (v w : Bytes) : litLang (quoteMeta v) w ↔ w = v :=
+  ⟨litMatch_quoteMeta_only v w, fun h => h ▸ litMatch_quoteMeta v⟩
+
+-- `a.b` ↦ `a\.b`, which matches `a.b` and not `axb`
+example : quoteMeta [97, 46, 98] = [97, 92, 46, 98] := by decide
+example : litLang (quoteMeta [97, 46, 98]) [97, 46, 98] ∧ ¬ litLang (quoteMeta [97, 46, 98]) [97, 120, 98] :=
+  ⟨(atR_literal _ _).2 rfl, fun h => absurd ((atR_literal _ _).1 h) (by decide)⟩
+
+/-- The escaped bytes are exactly regexp's metacharacters ``\.+*?()|[]{}^$``. -/
+theorem quoteMeta_specials (c : UInt8) :
+    special c = true ↔ c ∈ ([92, 46, 43, 42, 63, 40, 41, 124, 91, 93, 123, 125, 94, 36] : List UInt8) := by
+  constructor
+  · intro h
+    simp only [special, Bool.and_eq_true, Gen.Script.regexpSpecial] at h
+    simpa using h.2
+  · intro h
+    simp only [List.mem_cons, List.mem_nil_iff, or_false] at h
+    rcases h with h | h | h | h | h | h | h | h | h | h | h | h | h | h <;> subst h <;> decide
+
+/-- **`${k@R}`** is one argument: the QuoteMeta of the current value of `k`. -/
+theorem atR_expands (env : Env) (k : Bytes) (hk : NameOK k) :
+    parseLine env (36 :: 123 :: (k ++ [64, 82, 125])) = .ok [quoteMeta (lookup env k)] := by
+  have hko : AllOrdinary k := fun c hc => isAlphaNum_ordinary (hk.1 c hc)
+  have h := token_line env [Seg.raw (36 :: 123 :: (k ++ [64, 82, 125]))] (by simp)
+    ⟨by simp, fun c hc => by
+      simp only [List.mem_cons, List.mem_append, List.mem_nil_iff, or_false] at hc
+      rcases hc with h | h | h | h | h | h
+      · subst h; exact ordinary_syntax.1
+      · subst h; exact ordinary_syntax.2.1
+      · exact hko c h
+      · subst h; exact ordinary_syntax.2.2.2.1
+      · subst h; exact ordinary_syntax.2.2.2.2
+      · subst h; exact ordinary_syntax.2.2.1⟩
+  have he : expand env (36 :: 123 :: (k ++ [64, 82, 125])) = quoteMeta (lookup env k) := by
+    have := expand_atR_in env [] k [] (by simp) (by simp) hk.no_rbrace
+    simpa [DOLLAR, LBRACE, RBRACE] using this
+  simpa [renderSegs, Seg.render, valueSegs, Seg.value, he] using h
+
+/-- Together: the argument produced by `${k@R}` is a literal pattern whose language is exactly the
+current value of `k`. -/
+theorem atR_exact (env : Env) (k : Bytes) (hk : NameOK k) :
+    ∃ p, parseLine env (36 :: 123 :: (k ++ [64, 82, 125])) = .ok [p] ∧ ∀ w, litLang p w ↔ w = lookup env k :=
+  ⟨_, atR_expands env k hk, atR_literal _⟩
+
+-- K = `a.b (c)`
+example : parseLine [([75], [97, 46, 98, 32, 40, 99, 41])] [36, 123, 75, 64, 82, 125] = .ok [[97, 92, 46, 98, 32, 92, 40, 99, 92, 41]] :=
+  atR_expands _ [75] ⟨by decide, 75, [], rfl, by decide⟩
 
 end GIV.C02
